@@ -222,3 +222,176 @@ Proof.
   - rewrite P_C18.same_start_nth by (cbn; lia). cbn [Nat.eqb nth]. unfold section_average. rewrite E0, E2.
     unfold mean. cbn. numR. repeat f_equal; lra.
 Qed.
+
+(** * Source-text tie: the model's pieces are what eqsig/multiple.py, eqsig/fns/time_shift.py, eqsig/fns/average.py say
+    gen/Gen_c18.v is re-translated from the sources on every run by translator/py2coq_c18.py (fail closed; a renamed temporary
+    gives the same text, a changed operand / index / sign / literal / comparison gives another text and breaks one of the
+    theorems below).  Readings of the Python / NumPy primitives: lib/PySeq.v.  NOT translated (parameters of the generated
+    definitions): np.cos, np.sin, the constant pi of np.radians, eqsig.im.calc_arias_intensity (tied by C09), getattr, the
+    user's callable.  The outer `for s in range(len(self.signals))` loop of the two Cluster methods is read by the MODEL
+    (mapi over the signals; the returned variable keeps the lag of the last non-master signal): the translator checks the
+    shape of its header and of the `return`, and generates the pass; [C18_time_match_is_source] / [C18_same_start_is_source]
+    say that every pass of the model's loop is the generated pass.  Still decided only by the correspondence check: that
+    reading of the outer loop, Signal.reset_values / the constructor (values stored as arrays, npts = len(values), one dt for
+    the cluster), the `set_step is not False` and `index is not False` paths (not taken by these entry points), floating-point
+    rounding. *)
+From Coq Require Import String List.
+From EQ Require Import lib.PySeq gen.Gen_c18 proofs.P_gen_c18.
+
+(** combine_at_angle(acc_sig_ns, acc_sig_we, angle): off_rad = np.radians(angle); values * cos(off_rad) + values * sin(off_rad);
+    AccSignal(combo, acc_sig_ns.dt).  Generic in the number type and in the kernel; at R with cos, sin, PI it is the model. *)
+Theorem C18_combine_at_angle_is_source_generic : forall (T : Type) (ops : NumOps T) (cos_ sin_ : T -> T) (pi_ : T)
+  (ns : list T) (dt_ns : T) (we : list T) (dt_we angle : T),
+  gen_combine_at_angle cos_ sin_ pi_ ns dt_ns we dt_we angle
+  = (M_multiple.combine (cos_ (np_radians pi_ angle)) (sin_ (np_radians pi_ angle)) ns we, dt_ns).
+Proof. exact (@P_gen_c18.gen_combine_eq). Qed.
+Theorem C18_combine_at_angle_is_source : forall (ns we : list R) (dt_ns dt_we d : R),
+  gen_combine_at_angle cos sin PI ns dt_ns we dt_we d = (combine_at_angle ns we d, dt_ns).
+Proof. exact P_gen_c18.gen_combine_R. Qed.
+
+(** compute_rotated: degrees = np.mod(np.linspace(0 - angle_off_ns, 180. - angle_off_ns, points), 360) *)
+Theorem C18_scan_angles_is_source : forall (T : Type) (ops : NumOps T) (off : T) (points : nat),
+  gen_rotated_degrees off (Z.of_nat points) = scan_angles off points.
+Proof. exact (@P_gen_c18.gen_degrees_eq). Qed.
+(** the asserts: same dt, same npts (the isinstance asserts are the types of the inputs) *)
+Theorem C18_rotated_guard_is_source : forall (T : Type) (ops : NumOps T) (ns : list T) (dt_ns : T) (we : list T) (dt_we : T),
+  gen_rotated_guard ns dt_ns we dt_we = true <-> neqb dt_ns dt_we = true /\ length ns = length we.
+Proof. exact (@P_gen_c18.gen_guard_true). Qed.
+(** the loop `for i in range(len(degrees))`: new_sig = combine_at_angle(ns, we, degrees[i]); one append per pass.  Whatever
+    selects the measure: if every pass appends m(combination), the call returns the model's scan (degrees, values) *)
+Theorem C18_compute_rotated_is_source : forall (arias_ : list R * R -> list R) (getattr_ : list R * R -> string -> R)
+  (parameter : option string) (func : option (list R * R -> R + list R)) (m : list R -> R)
+  (ns we : list R) (dt_ns dt_we off : R) (points : nat),
+  gen_rotated_guard ns dt_ns we dt_we = true ->
+  (forall d, gen_rotated_item cos sin PI arias_ getattr_ parameter func ns dt_ns we dt_we d = Some (m (combine_at_angle ns we d))) ->
+  gen_compute_rotated cos sin PI arias_ getattr_ parameter func ns dt_ns we dt_we off (Z.of_nat points)
+  = Some (compute_rotated m off points ns we).
+Proof. exact P_gen_c18.gen_rotated_scan_R. Qed.
+(** the three ways the measure is selected, in the code's order (generic in the number type and the kernel):
+    parameter == "arias_intensity" -> calc_arias_intensity(new_sig)[-1]  (guard: not the empty array, else IndexError) *)
+Theorem C18_compute_rotated_arias_is_source : forall (T : Type) (ops : NumOps T) (cos_ sin_ : T -> T) (pi_ : T)
+  (arias_ : list T * T -> list T) (getattr_ : list T * T -> string -> T) (func : option (list T * T -> T + list T))
+  (ns : list T) (dt_ns : T) (we : list T) (dt_we off : T) (points : nat),
+  gen_rotated_guard ns dt_ns we dt_we = true -> (forall v, arias_ (v, dt_ns) <> []) ->
+  gen_compute_rotated cos_ sin_ pi_ arias_ getattr_ (Some "arias_intensity"%string) func ns dt_ns we dt_we off (Z.of_nat points)
+  = Some (rotated_scan (fun d => (cos_ (np_radians pi_ d), sin_ (np_radians pi_ d))) (fun v => last (arias_ (v, dt_ns)) n0) off points ns we).
+Proof. exact (@P_gen_c18.gen_rotated_arias). Qed.
+(** any other parameter string (func must be None) -> getattr(new_sig, parameter) *)
+Theorem C18_compute_rotated_attribute_is_source : forall (T : Type) (ops : NumOps T) (cos_ sin_ : T -> T) (pi_ : T)
+  (arias_ : list T * T -> list T) (getattr_ : list T * T -> string -> T) (p : string)
+  (ns : list T) (dt_ns : T) (we : list T) (dt_we off : T) (points : nat),
+  gen_rotated_guard ns dt_ns we dt_we = true -> p <> "arias_intensity"%string ->
+  gen_compute_rotated cos_ sin_ pi_ arias_ getattr_ (Some p) None ns dt_ns we dt_we off (Z.of_nat points)
+  = Some (rotated_scan (fun d => (cos_ (np_radians pi_ d), sin_ (np_radians pi_ d))) (fun v => getattr_ (v, dt_ns) p) off points ns we).
+Proof. exact (@P_gen_c18.gen_rotated_attr). Qed.
+(** parameter None, func given -> func(new_sig), its last item when it has a length (guard: not an empty array) *)
+Theorem C18_compute_rotated_func_is_source : forall (T : Type) (ops : NumOps T) (cos_ sin_ : T -> T) (pi_ : T)
+  (arias_ : list T * T -> list T) (getattr_ : list T * T -> string -> T) (f : list T * T -> T + list T)
+  (ns : list T) (dt_ns : T) (we : list T) (dt_we off : T) (points : nat),
+  gen_rotated_guard ns dt_ns we dt_we = true -> (forall v l, f (v, dt_ns) = inr l -> l <> []) ->
+  gen_compute_rotated cos_ sin_ pi_ arias_ getattr_ None (Some f) ns dt_ns we dt_we off (Z.of_nat points)
+  = Some (rotated_scan (fun d => (cos_ (np_radians pi_ d), sin_ (np_radians pi_ d)))
+            (fun v => match f (v, dt_ns) with inl x => x | inr l => last l n0 end) off points ns we).
+Proof. exact (@P_gen_c18.gen_rotated_func). Qed.
+(** the ways the call raises: a failing assert; neither parameter nor func (ValueError in the first pass); a parameter other
+    than "arias_intensity" together with a func (`assert func is None`) *)
+Theorem C18_compute_rotated_raises_is_source : forall (T : Type) (ops : NumOps T) (cos_ sin_ : T -> T) (pi_ : T)
+  (arias_ : list T * T -> list T) (getattr_ : list T * T -> string -> T) (ns : list T) (dt_ns : T) (we : list T) (dt_we off : T),
+  (forall parameter func points, gen_rotated_guard ns dt_ns we dt_we = false ->
+     gen_compute_rotated cos_ sin_ pi_ arias_ getattr_ parameter func ns dt_ns we dt_we off points = None) /\
+  (forall points, (1 <= points)%nat ->
+     gen_compute_rotated cos_ sin_ pi_ arias_ getattr_ None None ns dt_ns we dt_we off (Z.of_nat points) = None) /\
+  (forall p f d, p <> "arias_intensity"%string ->
+     gen_rotated_item cos_ sin_ pi_ arias_ getattr_ (Some p) (Some f) ns dt_ns we dt_we d = None).
+Proof.
+  intros. split; [|split].
+  - intros; now apply P_gen_c18.gen_rotated_guard_fails.
+  - intros; now apply P_gen_c18.gen_rotated_neither.
+  - intros; now apply P_gen_c18.gen_item_attr_and_func.
+Qed.
+
+(** Cluster.time_match: length_check = min(npts of signal 0, npts of signal 1); bm = master.values[:length_check];
+    om = slave.values[:length_check] *)
+Theorem C18_time_match_slices_is_source : forall (T : Type) (ops : NumOps T) (master : nat) (sigs : list (list T)) (v : list T),
+  gen_tm_length_check sigs = Z.of_nat (length_check sigs) /\
+  gen_tm_bm master sigs = firstn (length_check sigs) (nth master sigs []) /\
+  gen_tm_om sigs v = firstn (length_check sigs) v.
+Proof. intros. split; [apply P_gen_c18.gen_length_check_eq|]. split; [apply P_gen_c18.gen_bm_eq|apply P_gen_c18.gen_om_eq]. Qed.
+(** the search: min_diff = np.sum((bm[0:-steps] - om[0:-steps]) ** 2), min_ind = 0; for i in range(steps):
+    diff = sum((om[i:-steps + i] - bm[0:-steps]) ** 2); if diff < min_diff: min_diff = diff; min_ind = i + 0; then the same with
+    bm[i:-steps + i] - om[0:-steps] and min_ind = -i - 0: the model's candidates, in the model's order, with the model's strict < *)
+Theorem C18_time_match_search_is_source : forall (T : Type) (ops : NumOps T) (steps : nat) (bm om : list T),
+  gen_tm_search (Z.of_nat steps) bm om = find_lag_st steps bm om.
+Proof. exact (@P_gen_c18.gen_search_eq). Qed.
+Theorem C18_time_match_candidates_is_source : forall (T : Type) (ops : NumOps T) (steps i : nat) (bm om : list T) (st : Z * T),
+  gen_tm_init (Z.of_nat steps) bm om = (0%Z, prof_init steps bm om) /\
+  ((i < steps)%nat -> gen_tm_step1 (Z.of_nat steps) bm om st (Z.of_nat i) = lag_upd st (Z.of_nat i, prof_pos steps bm om i)) /\
+  ((i < steps)%nat -> gen_tm_step2 (Z.of_nat steps) bm om st (Z.of_nat i) = lag_upd st ((- Z.of_nat i)%Z, prof_neg steps bm om i)).
+Proof.
+  intros. split; [apply P_gen_c18.gen_init_eq|]. split; intros; [now apply P_gen_c18.gen_step1_eq|now apply P_gen_c18.gen_step2_eq].
+Qed.
+(** the padding: min_ind < 0 -> [om[0]] * abs(min_ind) + list(om[:min_ind]); min_ind > 0 -> list(om[min_ind:]) + [om[-1]] * abs(min_ind);
+    else continue.  (om[0], om[-1] are read with a default: C18_time_match_no_index_error) *)
+Theorem C18_time_match_padding_is_source : forall (T : Type) (ops : NumOps T) (lag : Z) (om : list T),
+  gen_tm_after lag om = if (lag =? 0)%Z then None else Some (apply_lag lag om).
+Proof. exact (@P_gen_c18.gen_after_eq). Qed.
+Theorem C18_time_match_no_index_error : forall (steps : nat) (bm : list R),
+  find_lag steps bm [] = 0%Z /\ gen_tm_after (fst (gen_tm_search (Z.of_nat steps) bm [])) [] = None.
+Proof. intros. split; [apply P_gen_c18.find_lag_empty_slave|apply P_gen_c18.gen_after_empty_slave]. Qed.
+(** one pass of `for s in range(len(self.signals))` (`if s != self.master_index: .. else: continue`), and the whole call *)
+Theorem C18_time_match_pass_is_source : forall (T : Type) (ops : NumOps T) (steps master : nat) (sigs : list (list T)) (s : nat) (v : list T),
+  tm_one steps master sigs s v
+  = let g := gen_tm_iter (Z.of_nat steps) master sigs s v in ((match fst g with Some m => m | None => v end, true), snd g).
+Proof. exact (@P_gen_c18.gen_iter_eq). Qed.
+Theorem C18_time_match_is_source : forall (T : Type) (ops : NumOps T) (steps master : nat) (sigs : list (list T)),
+  time_match steps master sigs
+  = (mapi (fun s v => (match fst (gen_tm_iter (Z.of_nat steps) master sigs s v) with Some m => m | None => v end, true)) sigs,
+     last_some (mapi (fun s v => snd (gen_tm_iter (Z.of_nat steps) master sigs s v)) sigs)).
+Proof. exact (@P_gen_c18.gen_time_match_eq). Qed.
+Theorem C18_time_match_vals_is_source : forall (steps master : nat) (sigs : list (list R)) (i : nat), (i < length sigs)%nat ->
+  nth i (time_match_vals steps master sigs) []
+  = match fst (gen_tm_iter (Z.of_nat steps) master sigs i (nth i sigs [])) with Some m => m | None => nth i sigs [] end.
+Proof. exact P_gen_c18.gen_time_match_vals_R. Qed.
+Theorem C18_time_match_default_steps_is_source : gen_tm_default_steps = 10%Z.
+Proof. exact eq_refl. Qed.
+
+(** time_indices(npts, dt, start, end, index=False): s_index = int(start / dt); e_index = int(end / dt) + 1 unless end == -1
+    (then e_index = end); `if e_index > npts: raise` *)
+Theorem C18_time_indices_is_source : forall (npts : Z) (dt start stop : R),
+  gen_time_indices npts dt start stop
+  = if (snd (time_indices dt start stop) >? npts)%Z then None else Some (time_indices dt start stop).
+Proof. exact P_gen_c18.gen_time_indices_R. Qed.
+(** get_section_average(series, start, end): np.mean(series.values[s_index:e_index]) on the indices of
+    time_indices(series.npts, series.dt, start, end, index) *)
+Theorem C18_section_average_is_source : forall (v : list R) (dt start stop : R),
+  gen_section_average v dt start stop
+  = if indices_ok (snd (time_indices dt start stop)) v
+    then Some (section_average (fst (time_indices dt start stop)) (snd (time_indices dt start stop)) v) else None.
+Proof. exact P_gen_c18.gen_section_average_R. Qed.
+(** Cluster.same_start: master_average first, then for every i != master_index:
+    slave_signal.reset_values(slave_signal.values - (slave_average - master_average)).
+    Guard: no signal is shorter than the end index (otherwise time_indices raises: second theorem) *)
+Theorem C18_same_start_is_source : forall (master : nat) (dt start stop : R) (sigs : list (list R)), (master < length sigs)%nat ->
+  (forall v, In v sigs -> indices_ok (snd (time_indices dt start stop)) v = true) ->
+  let ma := section_average (fst (time_indices dt start stop)) (snd (time_indices dt start stop)) (nth master sigs []) in
+  gen_ss_master_average master dt start stop sigs = Some ma /\
+  forall i, (i < length sigs)%nat ->
+    gen_ss_iter master dt start stop ma i (nth i sigs [])
+    = Some (if Nat.eqb i master then None else Some (nth i (same_start_time master dt start stop sigs) [])).
+Proof. exact P_gen_c18.gen_same_start_R. Qed.
+Theorem C18_same_start_raises_is_source : forall (master : nat) (dt start stop ma : R) (i : nat) (v : list R), i <> master ->
+  indices_ok (snd (time_indices dt start stop)) v = false -> gen_ss_iter master dt start stop ma i v = None.
+Proof. exact P_gen_c18.gen_ss_raises. Qed.
+Theorem C18_same_start_defaults_is_source : @gen_ss_default_start R _ = 0 /\ @gen_ss_default_end R _ = 1.
+Proof. exact (conj eq_refl eq_refl). Qed.
+
+(** the hypotheses of the source-tie theorems are met by concrete inputs *)
+Example C18_nonvacuous_source :
+  gen_rotated_guard [1; 2; -3] (1 / 2) [0; 1; 4] (1 / 2) = true /\
+  (forall v, In v [[1; 2; 4; 0]; [5; 5; 7; 1]] -> indices_ok 3 v = true) /\ indices_ok 5 [1; 2; 4; 0] = false.
+Proof.
+  split; [|split].
+  - apply P_gen_c18.gen_guard_true. split; [apply Reqb_true; reflexivity|reflexivity].
+  - intros v [<-|[<-|[]]]; reflexivity.
+  - reflexivity.
+Qed.
